@@ -72,7 +72,7 @@ UNITS = [pick_unbounded, pick2]
 
 # ------------------------------------------------------------------------------ Molecule.get_consensus: majority per position
 # n fragments x P positions; each fragment contributes at most one call per position: a base over ACGTN or no call.
-def molecule_unit(n_frag, n_pos, order=None, duplicate=False, probs=False):
+def molecule_unit(n_frag, n_pos, order=None, duplicate=False, probs=False, single_end=False):
     def setup(eng):
         eng.ghost.clear()
         calls = []
@@ -96,7 +96,7 @@ def molecule_unit(n_frag, n_pos, order=None, duplicate=False, probs=False):
                     d[100 + p] = (base, q)
             return d
         stubs.STUBS['FragStub'] = {'methods': {'get_consensus': frag_consensus, 'has_R1': lambda e, o: True,
-                                               'has_R2': lambda e, o: True}, 'props': {}, 'setters': {}}
+                                               'has_R2': lambda e, o: not single_end}, 'props': {}, 'setters': {}}
         idx = list(order) if order else list(range(n_frag))
         if duplicate:
             idx = idx + idx
@@ -119,7 +119,8 @@ def molecule_unit(n_frag, n_pos, order=None, duplicate=False, probs=False):
         'N_is_never_reported': 'all(result[k] != "N" for k in result)',
         'only_covered_positions': 'all(k >= 100 and k < 100 + NPOS for k in result)',
     }
-    tag = '%d fragments x %d positions%s%s' % (n_frag, n_pos, ', order %s' % (order,) if order else '', ', every fragment twice' if duplicate else '')
+    tag = '%d fragments x %d positions%s%s%s' % (n_frag, n_pos, ', order %s' % (order,) if order else '', ', every fragment twice' if duplicate else '',
+                                                ', single-end fragments' if single_end else '')
     params = {'self': mol}
     if probs:
         # the variant TAPS uses: (consensus, phred scores per base, observation vectors)
@@ -142,7 +143,8 @@ def _mol_pre(eng, fr):
     pass
 
 
-UNITS += [molecule_unit(1, 2),      # a molecule of one fragment: nothing to vote on, N calls still absent
+UNITS += [molecule_unit(2, 1, single_end=True),      # fragments of one mate only vote like any other (default: no dove-safe window)
+          molecule_unit(1, 2),      # a molecule of one fragment: nothing to vote on, N calls still absent
           molecule_unit(2, 1), molecule_unit(3, 1), molecule_unit(2, 2), molecule_unit(3, 1, order=(2, 0, 1)),
           molecule_unit(2, 1, duplicate=True),
           # four fragments: the smallest molecule with a plurality that is not an absolute majority (2:1:1)
@@ -150,7 +152,7 @@ UNITS += [molecule_unit(1, 2),      # a molecule of one fragment: nothing to vot
           molecule_unit(2, 2, probs=True)]
 
 
-def molecule_replay(order, duplicate, probs=False):
+def molecule_replay(order, duplicate, probs=False, single_end=False):
     def replay(inputs, clause):
         """real Molecule.get_consensus on stand-in fragments that return the model's per-position calls"""
         from pyvc.contract import import_real
@@ -171,7 +173,7 @@ def molecule_replay(order, duplicate, probs=False):
                 return True
 
             def has_R2(self):
-                return True
+                return not single_end
 
         class Mol:
             def __init__(self, frags):
@@ -204,7 +206,8 @@ def molecule_replay(order, duplicate, probs=False):
 
 for _u in UNITS:
     if _u.name.startswith('Molecule.get_consensus'):
-        _u.replay = molecule_replay((2, 0, 1) if 'order' in _u.name else None, 'twice' in _u.name, 'with_probs' in _u.name)
+        _u.replay = molecule_replay((2, 0, 1) if 'order' in _u.name else None, 'twice' in _u.name, 'with_probs' in _u.name,
+                                    'single-end' in _u.name)
 
 
 # ------------------------------------------------------------------------------ mate-overlap-safe window (also used by C14)
